@@ -357,7 +357,19 @@ class Importance(CellModifierInput):
     def _collect_new_values(self):
         new_vals = collections.defaultdict(list)
         particle_pairings = collections.defaultdict(set)
-        for particle in self._problem.mode.particles:
+        mode_particles = self._problem.mode.particles
+        # the inputs of a particle that has been removed from the mode are kept up as well: the cells
+        # still hold its importances, and removing a particle from the mode does not change them
+        particles = list(mode_particles) + [
+            particle
+            for particle in self._real_tree
+            if particle not in mode_particles
+            and all(
+                particle in cell.importance._particle_importances
+                for cell in self._problem.cells
+            )
+        ]
+        for particle in particles:
             for cell in self._problem.cells:
                 try:
                     tree = cell.importance._particle_importances[particle]
